@@ -218,8 +218,27 @@ def run(tier, seed):
                     ck.fail('python -m io_drawer.dump prints something for a dump file without data bytes', {'op': 'cli', 'drawer': name, 'text': empty_text, 'rc': rc, 'stdout': out[:100]}, 'cli_empty')
             d = gen_dump(rng) or b'\x01\x02'
             r = lean_batch(['render 1 1 ' + tb(d)])[0]
+            rlines = r.lines()
+            # only ONE of the two table files given on the command line (the other one is the drawer's own), under file names that read like
+            # shell variables / home directories
+            other = [x for x in drawers if x[0] != name]
+            if other:
+                _, ohdr, osf = other[0]
+                for extra, eh, es in ((['-d', ohdr], ohdr, sf), (['-s', osf], hdr, osf)):
+                    odd = os.path.join(tmp, rng.choice(['$HOME_dump.txt', '${PATH}.txt', '~dump.txt', 'plain.txt']))
+                    open(odd, 'w').write('\n'.join(rlines) + '\n')
+                    rc1, out1, _e1 = common.run2([common.PY, '-W', 'ignore', '-m', 'io_drawer.dump', '-t', name] + extra + [odd], env=common.child_env())
+                    want1 = dp.parse_dump_data(memoryview(d), eh, es)
+                    got1 = out1.split('\n')
+                    if got1 and got1[-1] == '':
+                        got1.pop()
+                    ck.case(key=('cli-one-table', name, extra[0], os.path.basename(odd), d))
+                    ck.count('cli with only %s given' % extra[0])
+                    if rc1 != 0 or got1 != want1:
+                        ck.fail('python -m io_drawer.dump with only %s given does not decode the regions with that file and the drawer\'s other table' % extra[0],
+                                {'op': 'cli', 'drawer': name, 'argv': [extra[0], '<file of the other drawer>', os.path.basename(odd)], 'data_hex': d.hex()[:2000], 'rc': rc1, 'actual': got1[:5], 'expected': want1[:5]}, 'cli_one_table')
             path = os.path.join(tmp, 'cli.txt')
-            open(path, 'w').write('\n'.join(r.lines()) + '\n')
+            open(path, 'w').write('\n'.join(rlines) + '\n')
             rc, out, _err = common.run2([common.PY, '-W', 'ignore', '-m', 'io_drawer.dump', '-t', name, path], env=common.child_env())
             real_raw = dp.parse_dump_data(memoryview(d), hdr, sf)
             ck.case(key=('cli', name, d), sample={'cli': 'python -m io_drawer.dump -t ' + name})
